@@ -3,6 +3,7 @@
 # 1. confirm in a scratch worktree: suite passes with the change, demo fails with / passes without
 # 2. run ./check <PID> --tier quick against /repo with the patch applied, then undo
 set -u
+VERIF_DIR="$(dirname "$(readlink -f "$0")")/.."; VERIF_DIR="$(readlink -f "$VERIF_DIR")"
 D=$(readlink -f $1); PID=$2; SKIP=${3:-}
 WT=/tmp/wt-verify-$$
 git -C /repo worktree add -q $WT HEAD || exit 9
@@ -14,7 +15,7 @@ PYTHONPATH=$WT timeout 300 /venv/bin/python $D/demo.py >/tmp/w/demo_mut.out 2>&1
 if [ -z "$SKIP" ]; then
   PYTHONPATH=$WT timeout 1200 /venv/bin/python -m pytest -q -p no:cacheprovider Test 2>&1 | tail -1
 fi
-cd /verif
+cd "$VERIF_DIR"
 if [ -n "${USE_SCRATCH:-}" ]; then
   # a background `vp run` is using /repo: run the check against the patched scratch worktree instead
   DSIM_REPO=$WT timeout 900 ./check $PID --tier quick --no-evidence > /tmp/w/check_mut.out 2>&1; echo "check exit (DSIM_REPO=$WT): $?"
